@@ -18,7 +18,9 @@
 #include "esx.h"
 #include "galloc.h"
 #include <aws/common/linked_hash_table.h>
-#include <aws/common/private/hash_table_impl.h>
+#ifndef NO_WHITEBOX
+#    include <aws/common/private/hash_table_impl.h>
+#endif
 
 #define NK 4
 #define NT 2
@@ -301,6 +303,7 @@ static size_t canon_table(const struct aws_linked_hash_table *tbl, uint8_t *b) {
     size_t o = 0;
     struct went w[MAXENT];
     int n = walk_forward(tbl, w);
+#ifndef NO_WHITEBOX
     const struct hash_table_state *st = (const struct hash_table_state *)tbl->table.p_impl;
     size_t size = st->size;
     b[o++] = (uint8_t)(size > 255 ? 255 : size);
@@ -319,6 +322,19 @@ static size_t canon_table(const struct aws_linked_hash_table *tbl, uint8_t *b) {
             if ((const void *)w[j].node == e->element.value) pos = j;
         b[o++] = (uint8_t)pos;
     }
+#else
+    /* fallback build (private hash table layout not available in the expected form): the inner table is represented by its
+     * public iteration order; the driver reports the run as degraded */
+    b[o++] = (uint8_t)aws_hash_table_get_entry_count(&tbl->table);
+    for (struct aws_hash_iter it = aws_hash_iter_begin(&tbl->table); !aws_hash_iter_done(&it); aws_hash_iter_next(&it)) {
+        struct kobj *k = as_key(it.element.key);
+        b[o++] = k ? (uint8_t)(k->id * NT + k->twin) : 0xfe;
+        int pos = 0xfe;
+        for (int j = 0; j < n; ++j)
+            if ((const void *)w[j].node == it.element.value) pos = j;
+        b[o++] = (uint8_t)pos;
+    }
+#endif
     b[o++] = (uint8_t)(n < 0 ? 0xfe : n);
     for (int i = 0; i < n; ++i) {
         b[o++] = (uint8_t)(w[i].k * NT + w[i].t);
@@ -334,6 +350,7 @@ static size_t canon_table(const struct aws_linked_hash_table *tbl, uint8_t *b) {
 
 /* statistics about the underlying table (new transitions only) */
 static size_t g_size_before;
+#ifndef NO_WHITEBOX
 static void stat_table_before(const struct aws_linked_hash_table *tbl) {
     g_size_before = ((const struct hash_table_state *)tbl->table.p_impl)->size;
 }
@@ -346,5 +363,9 @@ static void stat_table_after(const struct aws_linked_hash_table *tbl) {
             break;
         }
 }
+#else
+static void stat_table_before(const struct aws_linked_hash_table *tbl) { (void)tbl; }
+static void stat_table_after(const struct aws_linked_hash_table *tbl) { (void)tbl; }
+#endif
 
 #endif
